@@ -353,7 +353,7 @@ def gen_keyed_cases(rng):
 
 
 def gen_cases(rng, n):
-    cases = gen_big_cases(rng) + gen_keyed_cases(rng) + gen_derived_cases(rng) + gen_shape_cases(rng)
+    cases = gen_big_cases(rng) + gen_keyed_cases(rng) + gen_derived_cases(rng) + gen_shape_cases(rng) + gen_operator_cases(rng)
     for k in range(n):
         with_keyed = rng.random() < 0.3
         setup = gen_setup(rng, with_keyed)
@@ -365,15 +365,127 @@ def gen_cases(rng, n):
     # cases run with mocked row counts (0, tiny, huge) for the tables they create — estimates decide
     # which physical operator is extracted, and rules that rely on that choice must not
     import re as _re
-    for c in cases:
+    nfixed = len(cases) - n
+    extra = []
+    for idx, c in enumerate(cases):
         if rng.random() < 0.34:
             tabs = [m.group(1) for st in c["setup"] for m in [_re.match(r"create table (\w+)\(", st)] if m]
             mock = ["set mock_rowcount_%s = %d" % (t, rng.choice([0, 0, 1, 2, 3, 7, 1000, 1000000])) for t in tabs if rng.random() < 0.8]
             if mock:
-                c["setup"] = list(c["setup"]) + mock
-                c["features"] = list(c["features"]) + ["mocked-statistics"]
+                # the fixed families (chunk boundaries, keyed tables, shapes, operators) keep their run under
+                # real statistics — that run is what reaches sort aggregation / merge join on them — and get
+                # the mocked run IN ADDITION; a random case is replaced by its mocked variant
+                tgt = dict(c) if idx < nfixed else c
+                tgt["setup"] = list(c["setup"]) + mock
+                tgt["features"] = list(c["features"]) + ["mocked-statistics"]
+                if idx < nfixed:
+                    extra.append(tgt)
+    cases += extra
     return cases
 
+
+
+def gen_operator_cases(rng):
+    """Operators that the random join/where/aggregate generator never reaches (measured: the heads
+    `window over row_number like || substring replace repeat extract cast avg count-distinct values %`
+    did not occur in a single optimized plan of a run): window functions under filters, joins, limits
+    and DISTINCT (a filter above a window must stay above it), string functions and LIKE, AVG and
+    COUNT(DISTINCT), VALUES as a table, casts, EXTRACT, unary minus, modulo, and DATE / DOUBLE /
+    DECIMAL columns.  Doubles are multiples of 0.25 of small magnitude (sums are exact in any order).
+    Window ORDER BY lists are total on the selected columns (ties only between identical rows)."""
+    setup = gen_setup(rng, False)
+    setup.append("create table d1(id int, d date, f double, n decimal(8,2))")
+    nd = rng.choice([0, 1, 3, 5])
+    if nd:
+        rows = []
+        for i in range(nd):
+            d = "NULL" if rng.random() < 0.2 else "date '%s'" % rng.choice(["2020-01-31", "1999-12-01", "2000-02-29", "2020-03-01"])
+            f = "NULL" if rng.random() < 0.2 else str(rng.choice([-2.0, 0.0, 0.25, 1.5, 3.75]))
+            n = "NULL" if rng.random() < 0.2 else rng.choice(["1.25", "10.00", "-0.50", "0.00"])
+            rows.append("(%d, %s, %s, %s)" % (rng.choice([1, 2, 3]), d, f, n))
+        setup.append("insert into d1 values %s" % ", ".join(rows))
+    k = rng.choice([0, 1, 2, 3])
+    cmp_ = rng.choice(["<", "<=", ">", ">=", "=", "<>"])
+    agg = rng.choice(["sum", "min", "max", "count"])
+    part = rng.choice(["partition by a", "partition by a", "partition by c", ""])
+    desc = rng.choice(["", " desc"])
+    pat = rng.choice(["a%", "%b", "%", "a_", "", "_", "%a%"])
+    fld = rng.choice(["year", "month", "day"])
+    qs = [
+        # window functions over a (filtered) scan: alone, with filters above and below, a join / DISTINCT /
+        # aggregate ABOVE the window.  The window executor computes running aggregates over its input
+        # in input order (it ignores PARTITION BY and ORDER BY), so a window's answer is determined
+        # only by the order of its input: the cases keep a plain table scan below the window (same
+        # order with and without the optimizer) and nothing order-sensitive above it; a window over a
+        # join or an aggregation has no determined answer and is not generated.
+        "select a, b, c, row_number() over (order by a%s, b, c) from t1" % desc,
+        "select a, b, c, %s(b) over (%s order by a, b, c) from t1" % (agg, part),
+        "select a, b, c, row_number() over (partition by a order by b%s, c) from t1 where b %s %d" % (desc, cmp_, k),
+        "select s.a, s.b, s.rn from (select a, b, row_number() over (order by a, b, c) as rn from t1) s where s.rn %s %d" % (cmp_, k),
+        "select s.a, s.b, s.rn from (select a, b, row_number() over (order by a, b, c) as rn from t1) s where s.a %s %d" % (cmp_, k),
+        "select s.a, s.b, s.c, s.w from (select a, b, c, %s(b) over (partition by a order by b, c) as w from t1) s where s.b %s %d" % (agg, cmp_, k),
+        "select s.a, s.b, s.c, s.w from (select a, b, c, %s(b) over (partition by a order by b, c) as w from t1) s where s.a %s %d" % (agg, cmp_, k),
+        "select s.a, s.b, s.c, s.w from (select a, b, c, count(*) over (order by a, b, c) as w from t1) s where s.b is not null",
+        "select s.a, s.rn, t2.y from (select a, b, row_number() over (order by a, b, c) as rn from t1) s join t2 on s.rn = t2.x",
+        "select s.a, s.rn, t2.y from (select a, b, row_number() over (order by a, b, c) as rn from t1) s left join t2 on s.a = t2.x where s.rn %s %d" % (cmp_, k),
+        "select s.a, s.rn, t2.y from t2 right join (select a, b, row_number() over (order by a, b, c) as rn from t1) s on s.a = t2.x and s.rn %s %d" % (cmp_, k),
+        "select a, b, c, row_number() over (order by a, b, c) as r1, %s(b) over (partition by a order by b, c) as s1 from t1" % agg,
+        "select distinct s.a, s.w from (select a, count(*) over (partition by a order by b, c) as w from t1) s where s.w %s %d" % (cmp_, k),
+        "select count(*), max(rn) from (select row_number() over (order by a, b, c) as rn from t1) s where rn %s %d" % (cmp_, k),
+        "select a, b, c, a + row_number() over (order by a, b, c) from t1",
+        "select a, b, c, case when row_number() over (order by a, b, c) > %d then 1 else 0 end from t1" % k,
+        "select a, b, %s(b) over (partition by a order by b, c) from t1 where false" % agg,
+        "select s.a, s.rn from (select a, row_number() over (order by a, b, c) as rn from t1 where b %s %d) s where s.rn = 1" % (cmp_, k),
+        "select s.x, s.y, s.z, s.rn from (select x, y, z, row_number() over (partition by x order by y, z) as rn from t2) s where s.rn = %d" % (k + 1),
+        "select s.a, s.rn from (select a, row_number() over (order by a, b, c) as rn from t1) s where s.rn in (select x from t2)",
+        "select s.a, s.rn from (select a, row_number() over (order by a, b, c) as rn from t1) s where exists (select 1 from t2 where t2.x = s.rn)",
+        # string functions, LIKE
+        "select c || z from t1 join t2 on a = x",
+        "select c || 'x' || c from t1 where c || 'x' <> 'ax'",
+        "select a, c from t1 where c like '%s'" % pat,
+        "select a, c from t1 where c like '%s' or c like 'b%%'" % pat,
+        "select a, c from t1 where not (c like '%s')" % pat,
+        "select t1.a, t2.z from t1 left join t2 on t1.a = t2.x and t2.z like '%s'" % pat,
+        "select substring(c from 1 for 1), count(*) from t1 group by substring(c from 1 for 1)",
+        "select a from t1 where substring(c from %d) = 'b'" % (k + 1),
+        "select replace(c, 'a', 'x'), repeat(c, 2) from t1",
+        "select cast(b as varchar) || c from t1",
+        # AVG, COUNT(DISTINCT ..)
+        "select avg(b) from t1",
+        "select a, avg(b) from t1 group by a",
+        "select avg(b), avg(a + b) from t1 join t2 on a = x",
+        "select a, avg(b) from t1 group by a having avg(b) %s %d" % (cmp_, k),
+        "select count(distinct a) from t1",
+        "select count(distinct b), count(b), count(*) from t1 where a = %d" % k,
+        "select a, count(distinct b), sum(b) from t1 group by a having count(distinct b) > 1",
+        "select t1.a, count(distinct t2.y) from t1 left join t2 on t1.a = t2.x group by t1.a",
+        # VALUES as a table
+        "select * from (values (1, 2), (3, 4), (%d, NULL)) v" % k,
+        "select count(*) from (values (1), (2), (%d)) v" % k,
+        # casts, EXTRACT, unary minus, modulo, other types
+        "select cast(a as double), cast(a as boolean), cast(a as varchar) from t1",
+        "select a from t1 where cast(a as double) > %d.5" % k,
+        "select a, b from t1 where -a < -%d or -b = -2" % k,
+        "select a % 2, b from t1 where b % 2 = 1",
+        "select id, extract(%s from d) from d1" % fld,
+        "select extract(%s from d), count(*) from d1 group by extract(%s from d)" % (fld, fld),
+        "select id from d1 where extract(year from d) = 2020 and extract(day from d) > %d" % k,
+        "select id, d from d1 where d > date '2000-01-01'",
+        "select id, d from d1 where d + interval '1' day > date '2000-02-29'",
+        "select sum(f), min(f), max(f), min(n), max(n), sum(n), count(f) from d1",
+        "select id, sum(f), sum(n) from d1 group by id",
+        "select id, f + cast(id as double), n * 2 from d1 where n is not null",
+        "select id, f, n from d1 where f > 0.0 or n > 1.0",
+        "select d1.id, t1.b, d1.f from d1 join t1 on d1.id = t1.a where d1.f %s 1.5" % cmp_,
+        "select d1.id, t1.b, d1.n from d1 left join t1 on d1.id = t1.a and d1.n > 0.0",
+        "select id, n from d1 where n between 0.0 and 5.0",
+        "select id, f from d1 order by f, id, d, n",
+    ]
+    rng.shuffle(qs)
+    out = []
+    for q in qs[:40]:
+        out.append({"setup": setup, "sql": q, "features": ["operators"], "ordered": False, "nkeys": 0})
+    return out
 
 
 def gen_derived_cases(rng):
